@@ -16,8 +16,12 @@ package jet
 //@ pred StateReq(l *lexer) := LexInv(l) && Delims(l)
 //@ pred AtRD(l *lexer) := PrefixAt(l.input, l.pos, l.trimRightDelim) || PrefixAt(l.input, l.pos, l.rightDelim)
 //@ pred IsAlnum(r int) := r == '_' || UIsLetter(r) || UIsDigit(r)
+// Ranking of the state functions: a state that returns without having consumed input returns a state of lower rank,
+// so (remaining input, rank) decreases lexicographically with every step of the state machine.
+//@ ufunc LexRank(stateFn) int
+//@ axiom LexRank(lexText) == 12 && LexRank(lexLeftDelim) == 11 && LexRank(lexComment) == 11 && LexRank(lexSpace) == 10 && LexRank(lexField) == 10 && LexRank(lexChar) == 10 && LexRank(lexQuote) == 10 && LexRank(lexRawQuote) == 10 && LexRank(lexInsideAction) == 9 && LexRank(lexRightDelim) == 8 && LexRank(lexIdentifier) == 8 && LexRank(lexNumber) == 8
 //@ pred IsStateFn(f stateFn) := f == nil || f == lexText || f == lexLeftDelim || f == lexComment || f == lexRightDelim || f == lexInsideAction || f == lexSpace || f == lexIdentifier || f == lexField || f == lexChar || f == lexNumber || f == lexQuote || f == lexRawQuote
-//@ pred EntryOK(f stateFn, l *lexer) := (f == lexLeftDelim ==> PrefixAt(l.input, l.pos, l.leftDelim)) && (f == lexComment ==> PrefixAt(l.input, l.pos, l.leftComment)) && (f == lexRightDelim ==> AtRD(l)) && (f == lexSpace ==> l.pos > l.start) && (f == lexIdentifier ==> l.pos < len(l.input) && IsAlnum(DecRune(l.input[l.pos:])))
+//@ pred EntryOK(f stateFn, l *lexer) := (f == lexLeftDelim ==> PrefixAt(l.input, l.pos, l.leftDelim)) && (f == lexComment ==> PrefixAt(l.input, l.pos, l.leftComment)) && (f == lexRightDelim ==> AtRD(l)) && (f == lexSpace ==> l.pos > l.start && !PrefixAt(l.input, l.pos - 1, l.trimRightDelim)) && (f == lexIdentifier ==> l.pos < len(l.input) && IsAlnum(DecRune(l.input[l.pos:]))) && (f == lexNumber ==> l.pos < len(l.input) && NumStart(l.input[l.pos]))
 //@ pred Marker(l *lexer, q int) := PrefixAt(l.input, q, l.leftDelim) || PrefixAt(l.input, q, l.leftComment)
 //@ pred NoMarker(l *lexer, a int, b int) := forall(q, a, b, !Marker(l, q))
 //@ pred OperandEnd(t itemType) := t == itemNumber || t == itemIdentifier || t == itemField || t == itemString || t == itemRawString || t == itemCharConstant || t == itemBool || t == itemRightParen || t == itemRightBrackets
@@ -83,13 +87,16 @@ package jet
 //@   modifies l.pos, l.width
 //@   nopanic
 //@   ensures LexInv(l) && old(l.pos) <= l.pos
+//@   ensures [accept-consumes-a-listed-rune] old(l.pos) < len(l.input) && RuneIndex(valid, DecRune(l.input[old(l.pos):])) >= 0 ==> result && l.pos > old(l.pos)
 
 //@ func (*lexer).acceptRun
 //@   props C02
 //@   requires LexInv(l)
 //@   modifies l.pos, l.width
 //@   nopanic
-//@   loop 0 invariant LexInv(l) && old(l.pos) <= l.pos
+//@   loop 0 invariant LexInv(l) && old(l.pos) <= l.pos && visits("(*lexer).next", 0) >= 0 && ite(visits("(*lexer).next", 0) == 0, l.pos == old(l.pos), l.pos > old(l.pos))
+//@   loop 0 decreases [scanning-loops-consume-input] {C02} len(l.input) - l.pos
+//@   ensures [acceptrun-consumes-a-listed-rune] old(l.pos) < len(l.input) && RuneIndex(valid, DecRune(l.input[old(l.pos):])) >= 0 ==> l.pos > old(l.pos)
 //@   ensures LexInv(l) && old(l.pos) <= l.pos
 
 //@ func (*lexer).lineNumber
@@ -119,6 +126,8 @@ package jet
 //@   modifies l.pos, l.width
 //@   nopanic
 //@   ensures LexInv(l) && old(l.pos) <= l.pos
+//@   ensures [a-number-consumes-its-first-character] {C02} old(l.pos) < len(l.input) && NumStart(l.input[old(l.pos)]) ==> l.pos > old(l.pos)
+//@ pred NumStart(c byte) := c == 43 || c == 45 || c == 46 || (48 <= c && c <= 57)
 
 //@ func rightTrimLength
 //@   props C03
@@ -174,6 +183,7 @@ package jet
 //@   modifies l.pos, l.start, l.width, l.lastType, l.parenDepth, sent l.items
 //@   nopanic
 //@   ensures [state-machine-typing] StateReq(l) && IsStateFn(result) && EntryOK(result, l)
+//@   ensures [every-state-consumes-input-or-moves-down-the-ranking] {C02} result != nil ==> l.pos <= len(l.input) && (len(l.input) - l.pos) * 16 + LexRank(result) < (len(l.input) - old(l.pos)) * 16 + LexRank(callee)
 
 //@ func (*lexer).run$1
 //@   props C02
@@ -181,11 +191,13 @@ package jet
 //@   modifies *
 //@   nopanic
 //@   loop 0 invariant StateReq(l) && IsStateFn(l.state) && EntryOK(l.state, l)
+//@   loop 0 decreases [the-lexer-goroutine-terminates] {C02} ite(l.state == nil, 0, (len(l.input) - l.pos) * 16 + LexRank(l.state))
 
 //@ func lexText
 //@   refines field:lexer.state
 //@   props C02 C03
 //@   loop 0 invariant LexInv(l) && l.start == old(l.start) && old(l.pos) <= l.pos && sent(l.items) == old(sent(l.items)) && NoMarker(l, old(l.pos), l.pos) && l.lastType == old(l.lastType) && l.parenDepth == old(l.parenDepth)
+//@   loop 0 decreases [scanning-loops-consume-input] {C02} len(l.input) - l.pos
 //@   ensures [stops-at-first-marker] NoMarker(l, old(l.pos), l.pos) && (result == nil ==> l.pos == len(l.input)) && (result == lexLeftDelim ==> PrefixAt(l.input, l.pos, l.leftDelim)) && (result == lexComment ==> PrefixAt(l.input, l.pos, l.leftComment) && !PrefixAt(l.input, l.pos, l.leftDelim))
 //@   ensures [result-set] result == nil || result == lexLeftDelim || result == lexComment
 //@   ensures [text-before-comment-verbatim] result == lexComment ==> ite(l.pos > old(l.start), sent(l.items) == snoc(old(sent(l.items)), item{itemText, old(l.start), l.input[old(l.start):l.pos]}) && l.start == l.pos, sent(l.items) == old(sent(l.items)) && l.start == old(l.start))
@@ -224,24 +236,29 @@ package jet
 //@   refines field:lexer.state
 //@   props C02 C03
 //@   loop 0 invariant LexInv(l) && l.start == old(l.start) && old(l.pos) <= l.pos && sent(l.items) == old(sent(l.items)) && l.pos > l.start && numSpaces >= 0
+//@   loop 0 invariant [spaces-counted] {C02} l.pos >= old(l.pos) + numSpaces && (numSpaces == 0 ==> l.pos == old(l.pos))
+//@   loop 0 decreases [scanning-loops-consume-input] {C02} len(l.input) - l.pos
 //@   ensures result == lexInsideAction || result == lexRightDelim
 
 //@ func lexIdentifier
 //@   refines field:lexer.state
 //@   props C02
-//@   loop 0 invariant LexInv(l) && l.start == old(l.start) && sent(l.items) == old(sent(l.items)) && ((l.pos == old(l.pos) && l.pos < len(l.input) && IsAlnum(DecRune(l.input[l.pos:]))) || l.pos > l.start)
+//@   loop 0 invariant LexInv(l) && l.start == old(l.start) && sent(l.items) == old(sent(l.items)) && ((l.pos == old(l.pos) && l.pos < len(l.input) && IsAlnum(DecRune(l.input[l.pos:]))) || (l.pos > l.start && l.pos > old(l.pos)))
+//@   loop 0 decreases [scanning-loops-consume-input] {C02} len(l.input) - l.pos
 //@   ensures result == lexInsideAction || (result == nil && trlast(sent(l.items)).typ == itemError)
 
 //@ func lexField
 //@   refines field:lexer.state
 //@   props C02
 //@   loop 0 invariant LexInv(l) && l.start == old(l.start) && sent(l.items) == old(sent(l.items)) && old(l.pos) <= l.pos
+//@   loop 0 decreases [scanning-loops-consume-input] {C02} len(l.input) - l.pos
 //@   ensures result == lexInsideAction || (result == nil && trlast(sent(l.items)).typ == itemError)
 
 //@ func lexChar
 //@   refines field:lexer.state
 //@   props C02
 //@   loop 0 invariant LexInv(l) && l.start == old(l.start) && sent(l.items) == old(sent(l.items)) && old(l.pos) <= l.pos
+//@   loop 0 decreases [scanning-loops-consume-input] {C02} len(l.input) - l.pos
 //@   ensures [unterminated-char-is-an-error] result == lexInsideAction || (result == nil && trlast(sent(l.items)).typ == itemError)
 
 //@ func lexNumber
@@ -253,10 +270,12 @@ package jet
 //@   refines field:lexer.state
 //@   props C02
 //@   loop 0 invariant LexInv(l) && l.start == old(l.start) && sent(l.items) == old(sent(l.items)) && old(l.pos) <= l.pos
+//@   loop 0 decreases [scanning-loops-consume-input] {C02} len(l.input) - l.pos
 //@   ensures [unterminated-string-is-an-error] result == lexInsideAction || (result == nil && trlast(sent(l.items)).typ == itemError)
 
 //@ func lexRawQuote
 //@   refines field:lexer.state
 //@   props C02
 //@   loop 0 invariant LexInv(l) && l.start == old(l.start) && sent(l.items) == old(sent(l.items)) && old(l.pos) <= l.pos
+//@   loop 0 decreases [scanning-loops-consume-input] {C02} len(l.input) - l.pos
 //@   ensures [unterminated-raw-string-is-an-error] result == lexInsideAction || (result == nil && trlast(sent(l.items)).typ == itemError)
